@@ -134,9 +134,9 @@ def tiny_cut(r):
     """the vertex the floating-point simplex will stop at is cut off by 10^-e: feasible LPs whose optimum differs from the
     "double" optimum by less than any tolerance (near-degenerate vertices, rows with basic slacks that are exactly violated)"""
     n = r.randint(2, 5)
-    kind = r.choice(["box_sum", "box_sum_range", "linked_eq", "two_cuts"])
+    kind = r.choice(["box_sum", "box_sum_range", "linked_eq", "two_cuts", "eq_basic", "eq_basic"])
     e = r.choice([10, 11, 12, 13, 15, 20, 30])
-    eps = F(1, 10 ** e)
+    eps = F(1, 10 ** e) if r.random() < .6 else F(1, 2 ** r.choice([20, 24, 30, 40]))       # decimal or dyadic (exactly representable in a double)
     lp = _mk(0, n, True)
     for j in range(n):
         lp["lo"][j], lp["up"][j] = F(0), F(1)
@@ -153,6 +153,14 @@ def tiny_cut(r):
         add(allj, "L", F(n) - eps)
     elif kind == "box_sum_range":
         add(allj, "R", F(0), F(n) - eps)
+    elif kind == "eq_basic":
+        # an equality whose basic STRUCTURAL column ends up just outside its bound: max z, x + z = 1 - eps, x >= 0, 0 <= z <= 1
+        lp["obj"] = [F(0)] * n
+        lp["obj"][1] = F(1)
+        lp["lo"][0], lp["up"][0] = F(0), INF
+        add([(0, F(1)), (1, F(1))], "E", F(1) - eps)
+        for j in range(2, n):
+            add([(j, F(1)), (0, F(r.choice([0, 1])))], "L", F(2))
     elif kind == "linked_eq":
         lp["lo"][1], lp["up"][1] = NINF, INF
         lp["obj"] = [F(1)] + [F(0)] * (n - 1)
